@@ -167,7 +167,8 @@ def line_map_rule(ctx, res, rule):
         res.holds(rule, fn, "line-map", "one entry per '\\n': its byte position")
     else:
         res.add(Finding(rule, fn, "line-map", "build_line_map does not record exactly the byte positions of the '\\n' characters (%s): line numbers of listed regions shift" % (why or "other entries / other positions"), loc=loc))
-    # find_line: 1 + number of recorded line breaks at or before the position - decided by evaluating the function on small
+    # find_line: 1 + number of recorded line breaks *before* the position (the byte of a line break is the last byte of its
+    # line: an item that starts or ends with a line break starts / ends on that line) - decided by evaluating the function on small
     # concrete line maps (all positions 0..7 against the maps [], [0], [2,5], [0,1], [3,3]) with concrete iterator models
     fb = P.fn("line_map::find_line")
 
@@ -193,7 +194,7 @@ def line_map_rule(ctx, res, rule):
             for needle in range(8):
                 outs = A.Interp(P, models=models).explore(lambda J: J.call_fn_body(fb, [A.VecV([A.Lit(x) for x in lm]), A.Lit(needle)]))
                 rows += 1
-                want = 1 + sum(1 for x in lm if x <= needle)
+                want = 1 + sum(1 for x in lm if x < needle)      # a line break belongs to the line it ends
                 got = [o["value"].v if isinstance(o["value"], A.Lit) else A.show(o["value"]) for o in outs]
                 if got != [want] and bad is None:
                     bad = (lm, needle, got, want)
@@ -201,9 +202,9 @@ def line_map_rule(ctx, res, rule):
         res.cannot(rule, fshort(fb), "find-line", str(e), T.loc(fb["tree"]))
         return
     if bad is None:
-        res.holds(rule, fshort(fb), "find-line", "1 + number of line breaks at or before the position (%d concrete rows)" % rows)
+        res.holds(rule, fshort(fb), "find-line", "1 + number of line breaks before the position (%d concrete rows)" % rows)
     else:
-        res.add(Finding(rule, fshort(fb), "find-line", "find_line(%s, %d) evaluates to %s, the line number is %d (1 + line breaks at or before the position)" % bad, loc=T.loc(fb["tree"])))
+        res.add(Finding(rule, fshort(fb), "find-line", "find_line(%s, %d) evaluates to %s, the line number is %d (1 + line breaks before the position; a line break belongs to the line it ends)" % bad, loc=T.loc(fb["tree"])))
 
 
 def tabs_expanded(ctx, res, rule):
